@@ -239,7 +239,7 @@ reg("C09", "c09",
     "(prefix, local suffix, remote suffix) triples up to (2,2,2), with and without other identities in the same pull, and "
     "TLC-simulated schedules are run on real repositories; TLC accepts a trace only if every step (including that MergeAll "
     "reports on every remote identity, the status, the identity handed back and the resulting chains) is the specification's. "
-    "IdentFields enumerates 648 field-class combinations and the clock classes (growing, equal, decreasing, dropped); each is "
+    "IdentFields enumerates 1008 field-class combinations and the clock classes (growing, equal, decreasing, dropped); each is "
     "tried through NewIdentityFull + Commit and as a forged remote chain and must be accepted exactly when valid.",
     "Keys are covered by C08. go-git, TLC and the projection code are trusted.", "DESIGN.md section 4, C09")
 
